@@ -20,6 +20,9 @@ mod replay;
 mod types;
 
 use explore::Case;
+
+#[global_allocator]
+static GLOBAL: types::FaultAlloc = types::FaultAlloc;
 use props::Tier;
 use serde_json::{json, Value};
 use std::io::{BufRead, BufReader, Write};
